@@ -5,7 +5,8 @@ import json, sys, os
 sid, prop, caught, needs = sys.argv[1:5]
 note = sys.argv[6] if len(sys.argv) > 6 and sys.argv[5] == '--note' else ''
 d = f'/verif/seeded/{sid}'
-log = f'/var/tmp/confirm_{prop}.log'
+log = f'/var/tmp/confirm2_{sid}.log'
+if not os.path.exists(log): log = f'/var/tmp/confirm_{prop}.log'
 conf = open(log).read() if os.path.exists(log) else ''
 meta = {
   "id": sid,
@@ -13,7 +14,7 @@ meta = {
   "origin": "independent sub-agent given only the property text and its own scratch worktree of /repo (nothing from /verif)",
   "needs_to_manifest": needs,
   "confirmed_by_me": {
-     "how": "tools/confirm_seed.sh in the agent's worktree: both feature sets build; cargo nextest with the change: all 179 stable baseline tests pass; tests/seeded_demo.rs fails with the change and passes with it reverted",
+     "how": "tools/confirm_seed2.sh in the agent's worktree: both feature sets build; cargo nextest with the change: all 179 stable baseline tests pass; tests/seeded_demo.rs fails with the change and passes with it reverted",
      "log_tail": [l for l in conf.splitlines() if l.startswith('==') or 'CONFIRMED' in l],
   },
   "checked_with": f"tools/try_seed.sh {sid} (git -C /repo apply patch.diff; ./check <prop> quick; git -C /repo checkout -- .)",
